@@ -259,7 +259,7 @@ func specBE(bytes []byte, n int) int64 {
 
 //@ func parseBitString [C05 C16]
 //@   strict
-//@   ensures e == nil
+//@   ensures (e == nil) == (len(bytes) > 0)
 
 //@ func parseTagAndLength [C05 C16]
 //@   strict
